@@ -113,6 +113,9 @@ class SqliteStageOpsMixin:
                 )
 
             if cursor.rowcount == 0:
+                # Nothing was written, but the UPDATE opened a write transaction:
+                # close it so this connection does not keep the database locked.
+                conn.rollback()
                 if expected_phase is not None:
                     raise ConcurrencyError(
                         f"Optimistic lock failed for stage {stage.id} "
@@ -121,11 +124,20 @@ class SqliteStageOpsMixin:
                 raise ConcurrencyError(f"Optimistic lock failed for stage {stage.id} (version {stage.version})")
 
             # Update local version
+            original_versions = [(stage, stage.version)] + [(t, t.version) for t in stage.tasks]
             stage.version += 1
 
             # Update tasks
-            for task in stage.tasks:
-                upsert_task(conn, task, stage.id)
+            try:
+                for task in stage.tasks:
+                    upsert_task(conn, task, stage.id)
+            except ConcurrencyError:
+                # All or nothing, like AtomicTransaction: undo the stage UPDATE and
+                # the task rows written so far, and the in-memory version bumps.
+                conn.rollback()
+                for obj, version in original_versions:
+                    obj.version = version
+                raise
         else:
             insert_stage(conn, stage, stage.execution.id)
 
